@@ -10,4 +10,80 @@ import Mathlib.Data.List.Basic
 namespace BM.C12
 open BM
 
+theorem slice_mirror (l : Bits) (a b : Int) :
+    slice_ .lsb0 l a b = (slice_ .msb0 l.reverse a b).map List.reverse := getslice2_mirror l _ _
+
+theorem insert_mirror (l v : Bits) (pos : Int) (h0 : 0 ≤ pos) :
+    insert_ .lsb0 l v pos = (insert_ .msb0 l.reverse v.reverse pos).map List.reverse :=
+  setslice_mirror l _ v rfl (by simp) (invertedAssign_false_of_le pos pos l.length h0 (by omega))
+
+theorem overwrite_mirror (l v : Bits) (pos : Int) (h0 : 0 ≤ pos) :
+    overwrite_ .lsb0 l v pos = (overwrite_ .msb0 l.reverse v.reverse pos).map List.reverse := by
+  unfold overwrite_
+  rw [List.length_reverse]
+  exact setslice_mirror l _ v rfl (by simp) (invertedAssign_false_of_le pos _ l.length h0 (by omega))
+
+theorem delete_mirror (l : Bits) (k pos : Int) :
+    delete_ .lsb0 l k pos = (delete_ .msb0 l.reverse k pos).map List.reverse :=
+  delslice_mirror l _ rfl (by simp)
+
+theorem setvalid_mirror (l v : Bits) (a b : Int) (h0 : 0 ≤ a) (hab : a ≤ b) :
+    setitemSlice .lsb0 l ⟨some a, some b, none⟩ v
+      = (setitemSlice .msb0 l.reverse ⟨some a, some b, none⟩ v.reverse).map List.reverse :=
+  setslice_mirror l _ v rfl (by simp) (invertedAssign_false_of_le a b l.length h0 hab)
+
+theorem beq_reverse_left (s t : Bits) : (s.reverse == t) = (s == t.reverse) := by
+  rw [Bool.eq_iff_iff]
+  simp only [beq_iff_eq]
+  constructor
+  · intro h; rw [← h, List.reverse_reverse]
+  · intro h; rw [h, List.reverse_reverse]
+
+/-- `validateSlice` results are ordered and in range. -/
+theorem ite_ok_inv {α ε} {c : Prop} [Decidable c] {x y : α} {e : ε}
+    (h : (if c then Except.ok x else Except.error e) = Except.ok y) : c ∧ x = y := by
+  by_cases hc : c
+  · rw [if_pos hc] at h; injection h with h; exact ⟨hc, h⟩
+  · rw [if_neg hc] at h; cases h
+
+theorem validateSlice_bounds (n : Nat) (s e : Option Int) (a b : Nat) (h : validateSlice n s e = .ok (a, b)) :
+    a ≤ b ∧ b ≤ n := by
+  unfold validateSlice at h
+  obtain ⟨⟨h1, h2, h3⟩, h4⟩ := ite_ok_inv h
+  injection h4 with ha hb
+  omega
+
+theorem startswith_mirror (l t : Bits) (start stop : Option Int) :
+    startswithOp .lsb0 l t start stop = startswithOp .msb0 l.reverse t.reverse start stop := by
+  unfold startswithOp
+  simp only [List.length_reverse]
+  cases validateSlice l.length start stop with
+  | error e => rfl
+  | ok ab =>
+    obtain ⟨a, b⟩ := ab
+    simp only []
+    split
+    · rw [slice_mirror]
+      cases slice_ .msb0 l.reverse a (a + t.length) with
+      | error e => rfl
+      | ok s => simp only [Except.map, beq_reverse_left]
+    · rfl
+
+theorem endswith_mirror (l t : Bits) (start stop : Option Int) :
+    endswithOp .lsb0 l t start stop = endswithOp .msb0 l.reverse t.reverse start stop := by
+  unfold endswithOp
+  simp only [List.length_reverse]
+  cases validateSlice l.length start stop with
+  | error e => rfl
+  | ok ab =>
+    obtain ⟨a, b⟩ := ab
+    simp only []
+    split
+    · rw [slice_mirror]
+      cases slice_ .msb0 l.reverse ((b : Int) - t.length) b with
+      | error e => rfl
+      | ok s => simp only [Except.map, beq_reverse_left]
+    · rfl
+
+
 end BM.C12
